@@ -771,6 +771,7 @@ func run(c *lib.Ctx) {
 	wg.Wait()
 	concurrentBattery(c)
 	redeployPhase(c)
+	htpasswdRootsPhase(c)
 	c.Floor("concurrent_wrong_password_refused", 1000)
 	c.Floor("concurrent_valid_logins_overlapping", 200)
 	c.Floor("concurrent_authenticated_protected_pages", 20)
